@@ -173,8 +173,8 @@ func checks() map[string]*Check {
 
 	add(&Check{ID: "C19", Level: "exploration", Props: []string{"C19"},
 		Runs: []RunSpec{
-			{Scen: "codec.wire", Params: "cases=400", Quick: 6, Thorough: 120},
-			{Scen: "codec.storage", Params: "cases=300", Quick: 6, Thorough: 120},
+			{Scen: "codec.wire", Params: "cases=400", Quick: 6, Thorough: 600},
+			{Scen: "codec.storage", Params: "cases=300", Quick: 6, Thorough: 600},
 			{Scen: "codec.e2e", Params: "size=0", Quick: 1, Thorough: 2},
 			{Scen: "codec.e2e", Params: "size=1", Quick: 1, Thorough: 2},
 			{Scen: "codec.e2e", Params: "size=32767", Quick: 1, Thorough: 2},
@@ -327,19 +327,20 @@ func checks() map[string]*Check {
 	}
 	add(&Check{ID: "C12", Level: "fault_enumeration", Props: []string{"C12"},
 		Runs: []RunSpec{
-			{Scen: "store.log", Params: "ops=8", Quick: 16, Thorough: 200},
-			{Scen: "store.log", Params: "ops=14", Quick: 16, Thorough: 300},
-			{Scen: "store.log", Params: "ops=30", Quick: 4, Thorough: 60},
+			{Scen: "store.log", Params: "ops=8", Quick: 16, Thorough: 2000},
+			{Scen: "store.log", Params: "ops=14", Quick: 16, Thorough: 3000},
+			{Scen: "store.log", Params: "ops=30", Quick: 4, Thorough: 600},
+			{Scen: "store.log", Params: "ops=60", Quick: 0, Thorough: 100},
 		},
 		NT:     img,
 		Rule:   "each evaluation is one seed-determined API sequence (append/append-batch/truncate/compact/discard/close/reopen) on the real file-backed log under strace; every syscall boundary and byte prefix of every write yields a crash image that is reopened with the real code, compared with a reference list model (state after k-1, after k, or k-1 plus a prefix of an in-flight append) and then exercised further (3 operations + reopen). distinct = distinct operation sequences with a validated trace; images are counted in events_by_kind.images",
 		Assume: storeAssume})
 	add(&Check{ID: "C13", Level: "fault_enumeration", Props: []string{"C13"},
 		Runs: []RunSpec{
-			{Scen: "store.state", Params: "ops=10", Quick: 12, Thorough: 200},
-			{Scen: "store.snap", Params: "ops=3", Quick: 12, Thorough: 150},
-			{Scen: "store.snap", Params: "ops=8", Quick: 4, Thorough: 60},
-			{Scen: "store.snap", Params: "ops=40", Quick: 1, Thorough: 12},
+			{Scen: "store.state", Params: "ops=10", Quick: 12, Thorough: 800},
+			{Scen: "store.snap", Params: "ops=3", Quick: 12, Thorough: 600},
+			{Scen: "store.snap", Params: "ops=8", Quick: 4, Thorough: 240},
+			{Scen: "store.snap", Params: "ops=40", Quick: 1, Thorough: 36},
 			{Scen: "w1", Params: "snapshots=1,crash=1,snapus=6000,pad=40000,voters=3", Quick: 16, Thorough: 400},
 		},
 		NT:     img,
